@@ -62,7 +62,7 @@ def main(argv=None):
 
         rec = json.loads(pathlib.Path(a.replay).read_text())
         runfn = (lambda h, **p: mod.regressions(h)) if rec["params"].get("kind") == "__regressions__" else mod.run
-        rp = harness.replay(runfn, rec["params"] if runfn is mod.run else {}, rec["witness"], rec.get("tol", 1e-9))
+        rp = harness.replay(runfn, rec["params"] if runfn is mod.run else {}, rec["witness"], rec.get("tol", 1e-9), patch_rng=runfn is mod.run)
         print(json.dumps({"params": rec["params"], "witness": rec["witness"], "replay": rp}, indent=1, default=str))
         bad = rp["status"] == "exception" or rp["failed"]
         if bad:
@@ -104,7 +104,7 @@ def main(argv=None):
     if hasattr(mod, "regressions") and not a.only:
         from symx import harness as _hn
 
-        rp = _hn.replay(lambda h, **p: mod.regressions(h), {}, {})
+        rp = _hn.replay(lambda h, **p: mod.regressions(h), {}, {}, patch_rng=False)
         agg["regression_witnesses"] = len(rp.get("checked", []))
         if rp["status"] != "ok" or rp["failed"]:
             violations.append({"obligation": "regression witness: " + "; ".join(rp.get("failed", [])[:3] or [rp.get("exc", "")]),
